@@ -66,6 +66,7 @@ pub fn main(args: &[String]) -> i32 {
                 Some("crash") => crate::ecrash::worker_main(),
                 Some("fault") => crate::efault::worker_main(),
                 Some("sched") => crate::esched::worker_main(),
+                Some("sched-agent") => crate::esched::agent_main(),
                 Some("bin") => crate::ebin::worker_main(),
                 Some("corpus") => crate::ecorpus::worker_main(),
                 other => eprintln!("unknown worker kind {other:?}"),
@@ -1048,12 +1049,17 @@ pub fn c03_scenarios(tier: &str) -> Vec<crate::esched::Scenario> {
     let kinds = RKind::all();
     let mut out = vec![];
     let backends = [Backend::Mem, Backend::SqlShared, Backend::SqlPerThread];
+    let all_backends = [Backend::Mem, Backend::SqlShared, Backend::SqlPerThread, Backend::SqlPerProcess];
     for init in ["unknown", "empty", "chain2+snapshot"] {
         for http in [false, true] {
             if init == "unknown" && !http {
                 continue; // the library never creates clients: every answer is NoSuchClient
             }
-            for backend in backends {
+            for backend in all_backends {
+                // one instance per *process*: quick tier through the HTTP handlers only
+                if backend == Backend::SqlPerProcess && quick && !http {
+                    continue;
+                }
                 for a in 0..kinds.len() {
                     for b in a..kinds.len() {
                         out.push(Scenario { init: init.into(), threads: vec![vec![kinds[a]], vec![kinds[b]]], backend, http, lock_points: false, constructor_thread: false });
@@ -1073,7 +1079,7 @@ pub fn c03_scenarios(tier: &str) -> Vec<crate::esched::Scenario> {
     ];
     for init in ["unknown", "empty", "chain2+snapshot"] {
         for (t1, t2) in &two {
-            for backend in backends {
+            for backend in all_backends {
                 for http in [false, true] {
                     if init == "unknown" && !http {
                         continue;
@@ -1107,10 +1113,12 @@ pub fn c03_scenarios(tier: &str) -> Vec<crate::esched::Scenario> {
                 }
             }
         }
-        // a new instance being constructed meanwhile
+        // a new instance being constructed meanwhile (in this process / in a process of its own)
         for a in [RKind::AvLatest, RKind::AsLatest, RKind::GcLatest] {
             for b in [RKind::AvLatest, RKind::Gs] {
-                out.push(Scenario { init: "chain2+snapshot".into(), threads: vec![vec![a], vec![b]], backend: Backend::SqlPerThread, http: true, lock_points: true, constructor_thread: true });
+                for backend in [Backend::SqlPerThread, Backend::SqlPerProcess] {
+                    out.push(Scenario { init: "chain2+snapshot".into(), threads: vec![vec![a], vec![b]], backend, http: true, lock_points: true, constructor_thread: true });
+                }
             }
         }
     }
@@ -1304,7 +1312,7 @@ fn c03_check(tier: &str, replay: Option<&str>) -> i32 {
     run_sched(&mut rep, "C03", &scs, bound, max_exec, true);
     rep.cov("explanation", json!("states = complete schedules executed on real threads through the real code (each judged by brute-force linearizability against the reference model, responses and final state); transitions = sum over scenarios of the longest choice sequence"));
     rep.assume("scheduling points: before Storage::txn, before every StorageTxn method, before the transaction is dropped, at request start; thorough adds every SQLite lock call; blocking is observed through SQLite's busy handler (xSleep) and the in-memory mutex's try_lock");
-    rep.assume("server instances are separate objects in one process; SQLite's cross-process fcntl locking is assumed to honour the same contract as its in-process locking");
+    rep.assume("several instances on one directory are explored both as separate objects in one process and as separate processes (agent processes driven by the same scheduler over pipes), so SQLite's cross-process fcntl locking is exercised and nothing process-global can serialise the instances");
     rep.assume("schedules beyond the preemption bound and more than 3 threads are not explored");
     rep.finish()
 }
